@@ -204,6 +204,12 @@ fn value_pool() -> Vec<EV> {
         Value::Int(-1),
         Value::Int(i64::MAX),
         Value::Int(i64::MIN),
+        Value::Int(i64::MAX - 1),
+        Value::Int(i64::MIN + 1),
+        Value::Int((1 << 53) + 1),
+        Value::Int(-(1 << 53) - 1),
+        Value::Int(1234567890123456789),
+        Value::Int(999999999999999999),
         Value::Float(0.0),
         Value::Float(-0.0),
         Value::Float(1.5),
